@@ -146,6 +146,14 @@ def S2levels(kind: str) -> Spec:
     return Spec(tasks, [Res("r"), Res("q")], length="2w")
 
 
+def Sgroup() -> Spec:
+    """a task whose only allocation is a resource GROUP (groups never occupy resource time: such a task cannot be scheduled)"""
+    res = [Res("team"), Res("m1", parent="team"), Res("m2", parent="team")]
+    tasks = [Task("rel"), Task("review", parent="rel", effort=P("e0"), alloc=["team"]), Task("other", parent="rel", effort=P("e1"), alloc=["m1"]),
+             Task("solo", effort=P("e2"), alloc=["m2"])]
+    return Spec(tasks, res, length="2w")
+
+
 def ranges_e(spec: Spec, lo: int, hi: int, prio: tuple[int, int] = (1, 1000)) -> dict[str, tuple[int, int]]:
     out = {}
     for n in spec.params():
@@ -240,6 +248,7 @@ def sched_cells(tier: str) -> dict[str, Callable[[], tuple[Spec, dict, Optional[
     add("S2levels[inner-onstart]", lambda: S2levels("inner-onstart"), 60, 2 * H)
     for kind in ("dres", "wres", "dgroup", "dtask", "dparent"):
         add(f"S6[{kind}]", lambda kind=kind: S6(kind, limit="2h" if kind[0] == "d" else "5h"), H, 6 * H)
+    add("Sgroup", Sgroup, 60, 2 * H)
     for kind in ("plain", "dated", "start", "dep"):
         add(f"S10[{kind}]", lambda kind=kind: S10(kind), 60, 2 * H)
     return cells
@@ -282,7 +291,18 @@ class SxCheck:
         cell = self.make_cell(name, tier)
         b = self.quick_budget if tier == "quick" else self.thorough_budget
         # reachability witness: a native run with the default values reaches the judgement with work booked
-        ok = cell.body(*([cell.defaults[n] for n in cell.names] + [cell.spec.resolution]))
+        try:
+            ok = cell.body(*([cell.defaults[n] for n in cell.names] + [cell.spec.resolution]))
+        except Exception as e:  # noqa: BLE001 - the real scheduler raised on a plain concrete project
+            import traceback
+
+            tb = traceback.extract_tb(e.__traceback__)
+            where = next((f"{f.filename.split('/')[-1]}:{f.lineno}" for f in reversed(tb) if "/scriptplan/" in f.filename), "?")
+            if where == "?":
+                raise  # the harness itself broke
+            return {"status": R.REFUTED, "paths": 1, "nontrivial": 0, "queries": 0, "solver_s": 0.0, "samples": [{}],
+                    "counterexamples": [{"label": f"scheduling raised {type(e).__name__} at {where}: {e}"[:200], "inputs": dict(cell.defaults)}],
+                    "detail": f"exception from repository code in the concrete run with the largest values: {type(e).__name__}"}
         import time as _t
 
         t0 = _t.time()
@@ -374,7 +394,7 @@ QUICK_CELLS = {
                      "S3mixed[prefix]", "S2cross[prefix]", "S2cross[busy,bound-slot-full]", "S7[same-deadline]", "S7[container]", "S7[project-end]", "S7[mixed]"],
     "C08": _BANDS + ["S1x2[eff=1.0]", "S2x2[eff=0.5]", "S2x2[gap=1h]", "S2x2[onstart]", "S2x2+1", "S3team", "S3mixed[prefix]", "S2cross[prefix]",
                      "S2cross[busy,bound-slot-full]", "S7[same-deadline]", "S7[chain]", "S7[container]", "S7[project-end]", "S7[same-ids]"],
-    "C10": ["S5containers", "S5dated", "S10[plain]", "S10[dated]", "S10[start]", "S10[dep]", "S3team", "S7[container]", "S7[same-ids]", "S2levels[outer-gap]", "S6[dparent]", "S6[dgroup]"],
+    "C10": ["Sgroup", "S5containers", "S5dated", "S10[plain]", "S10[dated]", "S10[start]", "S10[dep]", "S3team", "S7[container]", "S7[same-ids]", "S2levels[outer-gap]", "S6[dparent]", "S6[dgroup]"],
 }
 
 # the thorough tier of a property = its quick cells + every cell of the families relevant to it
@@ -384,5 +404,5 @@ THOROUGH_FAMILIES = {
     "C04": ["S2x2[gap", "S2x2g29", "S2x2[onstart", "S2x2[band", "S5", "S2levels", "S2x2+milestone", "S7[chain", "S7[container", "S7[same-ids", "S10[dep", "S2cross2"],
     "C06": ["S1x2[band", "S2x2[", "S2x2g29", "S2x2+milestone", "S3", "S2cross", "S7"],
     "C08": ["S1x2[band", "S2x2[", "S2x2g29", "S3", "S2cross", "S7", "S2x2+1"],
-    "C10": ["S5", "S10", "S7[container", "S7[same-ids", "S3team", "S6[dparent", "S6[dgroup", "S2levels"],
+    "C10": ["Sgroup", "S5", "S10", "S7[container", "S7[same-ids", "S3team", "S6[dparent", "S6[dgroup", "S2levels"],
 }
